@@ -353,6 +353,12 @@ func (s *snappyCodec) decompress(compressed []byte) ([]byte, error) {
 	if len(compressed) < 4 {
 		return nil, errors.New("snappy block too short to hold its checksum")
 	}
+	// The decoded length is declared in the block's first bytes. A snappy
+	// element of at most three bytes expands to at most 64, so anything far
+	// beyond that ratio cannot be genuine and must not be allocated.
+	if n, err := snappy.DecodedLen(compressed[:len(compressed)-4]); err != nil || n > 32*len(compressed) {
+		return nil, errors.New("snappy block declares an impossible decoded length")
+	}
 	var err error
 	s.buf, err = snappy.Decode(s.buf[:cap(s.buf)], compressed[:len(compressed)-4])
 	if err != nil {
